@@ -62,7 +62,7 @@ def same_items(A: Any, B: Any, n: Any) -> Any:
     return z3.ForAll([j], z3.Implies(z3.And(0 <= j, j < n), M.lat(A, j) == M.lat(B, j)), patterns=[M.lat(A, j)])
 
 
-@contract(ANY, "AnySchema._flatten_schemas", props=("C13", "C10", "C07", "C17"), group="combinators")
+@contract(ANY, "AnySchema._flatten_schemas", props=("C13", "C10", "C07", "C17", "C06", "C01"), group="combinators")
 def _flatten(c):
     c.reproducible()      # C17: the schema built does not depend on the interpreter's hash seed
     ct = c.ct
@@ -108,7 +108,7 @@ _REG.axiom_fns.append(_any_unfold_axioms)
 
 
 # ----------------------------------------------------------------------------- AnySchema.__call__ / union
-@contract(ANY, "AnySchema.__call__", props=("C13", "C10", "C07", "C17"), group="combinators")
+@contract(ANY, "AnySchema.__call__", props=("C13", "C10", "C07", "C17", "C06", "C01"), group="combinators")
 def _any_call(c):
     c.reproducible()      # C17: the schema built does not depend on the interpreter's hash seed
     ct = c.ct
@@ -150,7 +150,7 @@ def _any_call(c):
                                  z3.ForAll([jj], z3.Implies(z3.And(0 <= jj, jj < M.llen(ts)), M.lat(R, jj + 1) == M.lat(ts, jj)),
                                            patterns=[M.lat(ts, jj)])))
     c.ensures("alternatives-kept-when-flat", kept_when_flat, ("C06", "C13"))
-    c.ensures("invariant", lambda r, post: z3.And(*S.reach_def(ct, "AnySchema", r)), ("C10",))
+    c.ensures("invariant", lambda r, post: z3.And(*S.reach_def(ct, "AnySchema", r)), ("C10", "C06", "C01"))
     c.ensures("unfold", lambda r, post: S.unfold_defs(ct, "AnySchema", r), ("C13",))
 
 
